@@ -655,6 +655,29 @@ def c19(ctx):
         if ctx.maxes.get("distinct_overlapping_type_pairs", 0) < 60:
             ctx.inconclusive.append("only %d distinct overlapping operation-type pairs observed" % ctx.maxes.get("distinct_overlapping_type_pairs", 0))
 
+    # ---- monitor 1b: helgrind on the UNINSTRUMENTED production objects (happens-before analysis needs no actual overlap)
+    if not ctx.replay:
+        import re as _re
+        hj = [{"cmd": ["valgrind", "--tool=helgrind", "-q", "--error-exitcode=0", "--history-level=approx", exe, "--seed", str(ctx.seed), "--mode", "stress",
+                       "--p1", str(ctx.q(420, 1400)), "--p2", str(tt), "--p3", "1"], "tag": "prod-cmake-Release+helgrind-T%d" % tt} for tt in ctx.q([4], [2, 8])]
+        res = ctx.run_jobs(hj, timeout=2400)
+        for job, rc, out, err, dt in res:
+            if rc is None:
+                continue
+            ctx.count("helgrind_processes", 1)
+            blocks = _re.split(r"==\d+== -{20,}", err or "")
+            seen = {}
+            for b in blocks:
+                if "Possible data race" not in b:
+                    continue
+                ctx.count("helgrind_race_reports", 1)
+                fns = _re.findall(r"(?:at|by) 0x[0-9A-F]+: (tinyjambu_\w+)", b)
+                if not fns:
+                    continue        # harness-only frames (atomics of the overlap meter): not the library
+                key = "helgrind:data-race:" + "+".join(sorted(set(fns[:2])))
+                seen.setdefault(key, b[:2500])
+            for key, b in seen.items():
+                ctx.violation(key, {"build": job["tag"], "cmd": job["cmd"], "report": b})
     # ---- monitor 2: writable-segment snapshot on the production shared library
     exe_so = ctx.harness("h_conc-so", "h_conc.c", None, cc="gcc", with_model=False,
                          ldflags=["-L" + p["sodir"], "-ltinyjambu", "-Wl,-rpath," + p["sodir"]])
@@ -719,7 +742,7 @@ def c19(ctx):
                 "callback, PRNG with the system source (OS call interposed by a per-thread deterministic stub), clean+free), inputs from (seed, op index), all on "
                 "private stack objects. Monitor 1: serial pass, then T threads each run a random permutation of the whole table (barrier start, yield/nanosleep "
                 "jitter between calls); every result compared with serial; gcc and clang -fsanitize=thread builds (reports read from logs, deduplicated, library "
-                "frame required) and the uninstrumented production object. evaluations = concurrent operation executions compared; distinct_nontrivial = distinct "
+                "frame required), the uninstrumented production object, and the production object under valgrind helgrind (race reports with a library frame). evaluations = concurrent operation executions compared; distinct_nontrivial = distinct "
                 "(type, type) pairs observed in flight simultaneously + snapshot/heap operation types. Monitor 2: hash of libtinyjambu.so's writable mappings "
                 "before/after every operation (LD_BIND_NOW=1). Monitor 3: malloc/calloc/realloc/free/posix_memalign/mmap interposed, any call inside a library call "
                 "is a violation. Monitor 4: the table in 4 different orders in separate processes + 40 operations alone in fresh processes give identical results. "
